@@ -27,10 +27,6 @@ type RawValues = Vec<RecordValue>;
 //@enditem
 //@item src/limits.rs struct ColorLimits
 //@enditem
-//@item src/cv_section.rs struct CompressedVectorSectionHeader
-//@enditem
-//@item src/packet.rs struct DataPacketHeader
-//@enditem
 //@item src/pointcloud.rs struct PointCloud
 //@rw : (Option<)?(String|Transform|DateTime|Vec<String>)>?, ==> : Opaque,
 //@enditem
@@ -103,7 +99,115 @@ spec fn opt_sph(o: Option<SphericalBounds>, proto: Seq<Record>, vals: Seq<Record
 spec fn opt_idx(o: Option<IndexBounds>, proto: Seq<Record>, vals: Seq<RecordValue>, k: int) -> Option<IndexBounds> {
     match o { Some(b) => Some(idx_fold(b, proto, vals, k)), None => None } }
 
+/// bits that the i-th values of the first k points contribute to stream i, in point order (C01/C12)
+spec fn enc_pts(dt: RecordDataType, i: int, pts: Seq<RawValues>, k: int) -> Seq<bool>
+    decreases k
+{ if k <= 0 { Seq::<bool>::empty() } else { enc_pts(dt, i, pts, k - 1) + dt.enc(pts[k - 1]@[i]) } }
+/// LE u16 sizes of the first j chunks
+spec fn sizes_le(chunks: Seq<Seq<u8>>, j: int) -> Seq<u8>
+    decreases j
+{ if j <= 0 { Seq::<u8>::empty() } else { sizes_le(chunks, j - 1) + le_bytes16(chunks[j - 1].len() as u16) } }
+spec fn concat_chunks(chunks: Seq<Seq<u8>>, j: int) -> Seq<u8>
+    decreases j
+{ if j <= 0 { Seq::<u8>::empty() } else { concat_chunks(chunks, j - 1) + chunks[j - 1] } }
+spec fn total_len(chunks: Seq<Seq<u8>>, j: int) -> int
+    decreases j
+{ if j <= 0 { 0 } else { total_len(chunks, j - 1) + chunks[j - 1].len() } }
+#[verifier::opaque]
+spec fn up4(p: int) -> int { if p % 4 == 0 { p } else { p + 4 - p % 4 } }
+spec fn zeros(n: int) -> Seq<u8> { Seq::new(n as nat, |i: int| 0u8) }
+/// E57 data packet (standard): header(6) ++ n x u16 LE stream lengths ++ the streams ++ zero padding to a multiple of 4;
+/// the length field counts the whole packet
+spec fn spec_data_packet(chunks: Seq<Seq<u8>>) -> Seq<u8> {
+    let n = chunks.len() as int; let tot = total_len(chunks, n); let plen = up4(6 + 2 * n + tot);
+    spec_data_packet_header(false, plen as u64, n as u16) + sizes_le(chunks, n) + concat_chunks(chunks, n) + zeros(plen - 6 - 2 * n - tot)
+}
+
+/// LE u16 encodings of the first j entries of a size table
+spec fn sizes16(v: Seq<u16>, j: int) -> Seq<u8>
+    decreases j
+{ if j <= 0 { Seq::<u8>::empty() } else { sizes16(v, j - 1) + le_bytes16(v[j - 1]) } }
+proof fn lemma_sizes16_is_sizes_le(v: Seq<u16>, chunks: Seq<Seq<u8>>, j: int)
+    requires 0 <= j <= v.len(), j <= chunks.len(), forall|t: int| 0 <= t < j ==> v[t] as int == (#[trigger] chunks[t]).len(),
+    ensures sizes16(v, j) == sizes_le(chunks, j)
+    decreases j
+{ if j > 0 { lemma_sizes16_is_sizes_le(v, chunks, j - 1); } }
+proof fn lemma_total_nonneg(chunks: Seq<Seq<u8>>, j: int)
+    ensures total_len(chunks, j) >= 0, concat_chunks(chunks, j).len() == total_len(chunks, j), sizes_le(chunks, j).len() == (if j <= 0 { 0 } else { 2 * j })
+    decreases j
+{ if j > 0 { lemma_total_nonneg(chunks, j - 1); } }
+proof fn lemma_total_ge_each(chunks: Seq<Seq<u8>>, j: int, t: int)
+    requires 0 <= t < j <= chunks.len()
+    ensures chunks[t].len() <= total_len(chunks, j)
+    decreases j
+{ lemma_total_nonneg(chunks, j - 1); if t < j - 1 { lemma_total_ge_each(chunks, j - 1, t); } }
+/// concat over a prefix does not depend on later elements
+proof fn lemma_concat_prefix(c: Seq<Seq<u8>>, j: int)
+    requires 0 <= j < c.len()
+    ensures concat_chunks(c, j) == concat_chunks(c.subrange(0, j), j), concat_chunks(c.subrange(0, j), j) == concat_chunks(c.subrange(0, j).push(c[j]), j)
+    decreases j
+{
+    lemma_concat_ext(c, c.subrange(0, j), j);
+    lemma_concat_ext(c.subrange(0, j).push(c[j]), c.subrange(0, j), j);
+}
+proof fn lemma_concat_ext(a: Seq<Seq<u8>>, b: Seq<Seq<u8>>, j: int)
+    requires 0 <= j <= a.len(), j <= b.len(), forall|t: int| 0 <= t < j ==> a[t] == b[t]
+    ensures concat_chunks(a, j) == concat_chunks(b, j), total_len(a, j) == total_len(b, j), sizes_le(a, j) == sizes_le(b, j)
+    decreases j
+{ if j > 0 { lemma_concat_ext(a, b, j - 1); } }
+proof fn lemma_up4(p: int)
+    requires p >= 0
+    ensures up4(p) % 4 == 0, p <= up4(p) <= p + 3, (p % 4 == 0 ==> up4(p) == p), (p % 4 != 0 ==> up4(p) == p + (4 - p % 4))
+{ reveal(up4); }
+
+spec fn sum_chunk(bs: Seq<ByteStreamWriteBuffer>, last: bool, j: int) -> int
+    decreases j
+{ if j <= 0 { 0 } else { sum_chunk(bs, last, j - 1) + bs[j - 1].chunk_len(last) } }
+proof fn lemma_sum_chunk_zero(bs: Seq<ByteStreamWriteBuffer>, last: bool, j: int)
+    requires 0 <= j <= bs.len(), sum_chunk(bs, last, j) == 0, forall|t: int| 0 <= t < j ==> (#[trigger] bs[t]).wf(),
+    ensures forall|t: int| 0 <= t < j ==> (#[trigger] bs[t]).chunk_len(last) == 0
+    decreases j
+{
+    if j > 0 {
+        lemma_sum_chunk_nonneg(bs, last, j - 1);
+        lemma_sum_chunk_zero(bs, last, j - 1);
+    }
+}
+proof fn lemma_sum_chunk_nonneg(bs: Seq<ByteStreamWriteBuffer>, last: bool, j: int)
+    requires 0 <= j <= bs.len(), forall|t: int| 0 <= t < j ==> (#[trigger] bs[t]).wf(),
+    ensures sum_chunk(bs, last, j) >= 0
+    decreases j
+{ if j > 0 { lemma_sum_chunk_nonneg(bs, last, j - 1); } }
+proof fn lemma_sum_chunk_total(bs: Seq<ByteStreamWriteBuffer>, last: bool, chunks: Seq<Seq<u8>>, j: int)
+    requires 0 <= j <= bs.len(), j <= chunks.len(), forall|t: int| 0 <= t < j ==> (#[trigger] chunks[t]).len() == bs[t].chunk_len(last),
+    ensures sum_chunk(bs, last, j) == total_len(chunks, j)
+    decreases j
+{ if j > 0 { lemma_sum_chunk_total(bs, last, chunks, j - 1); } }
+
+impl ByteStreamWriteBuffer {
+    /// number of bytes a packet takes from this stream: only whole bytes, or everything on the last flush
+    spec fn chunk_len(&self, last: bool) -> int { if last { self.buffer@.len() as int } else { self.nbits() / 8 } }
+}
+
 impl<'a> PointCloudWriter<'a> {
+    /// what one call of write_buffer_to_disk did: k points packed, `chunks` emitted as one data packet (or nothing)
+    spec fn emitted(&self, o: &Self, k: int, last: bool, chunks: Seq<Seq<u8>>) -> bool {
+        let n = o.n();
+        &&& chunks.len() == n
+        // C01/C12: per stream, the emitted chunk followed by what stays buffered is everything that was buffered plus the k new encodings
+        &&& forall|i: int| 0 <= i < n ==> {
+                let all = o.all_bits(i, k);
+                if last { (#[trigger] chunks[i]).len() == (all.len() + 7) / 8 && bits_of(chunks[i]).subrange(0, all.len() as int) =~= all
+                            && (forall|b: int| all.len() <= b < 8 * chunks[i].len() ==> !bit_at(chunks[i], b)) && self.byte_streams@[i].bits().len() == 0 }
+                else { bits_of(#[trigger] chunks[i]) + self.byte_streams@[i].bits() =~= all && self.byte_streams@[i].nbits() < 8 }
+            }
+        // C01/C02: exactly one well-formed data packet is appended iff there is at least one byte to emit
+        &&& (total_len(chunks, n) > 0 ==> appended(*o.writer, *self.writer, spec_data_packet(chunks))
+                && self.section_header.section_length as int == o.section_header.section_length + spec_data_packet(chunks).len()
+                && spec_data_packet(chunks).len() == up4(6 + 2 * n + total_len(chunks, n)) && spec_data_packet(chunks).len() <= 65535)
+        &&& (total_len(chunks, n) == 0 ==> appended(*o.writer, *self.writer, Seq::<u8>::empty())
+                && self.section_header.section_length == o.section_header.section_length)
+    }
     spec fn n(&self) -> int { self.prototype@.len() as int }
     /// established by PointCloudWriter::new: a bounds struct exists for every attribute group of the prototype
     spec fn bounds_present(&self) -> bool {
@@ -117,12 +221,227 @@ impl<'a> PointCloudWriter<'a> {
         }
     }
 
-    #[verifier::external_body]
-    fn write_buffer_to_disk(&mut self, last_flush: bool) -> (r: Result<()>)
-        ensures final(self).prototype == old(self).prototype, final(self).point_count == old(self).point_count,
-            final(self).cartesian_bounds == old(self).cartesian_bounds, final(self).spherical_bounds == old(self).spherical_bounds,
-            final(self).index_bounds == old(self).index_bounds,
-    { unimplemented!() }
+    /// every buffered point has one representable value per prototype record (established by add_point: C10)
+    spec fn pts_fit(&self, pts: Seq<RawValues>) -> bool {
+        forall|j: int| 0 <= j < pts.len() ==> (#[trigger] pts[j])@.len() == self.n()
+            && forall|i: int| 0 <= i < self.n() ==> (#[trigger] self.prototype@[i]).data_type.fits(pts[j]@[i])
+    }
+    /// representation invariant at call boundaries
+    spec fn wf_w(&self) -> bool {
+        &&& self.byte_streams@.len() == self.n() && self.n() < 0x8000
+        &&& (forall|i: int| 0 <= i < self.n() ==> (#[trigger] self.byte_streams@[i]).wf() && self.byte_streams@[i].nbits() < 8)
+        &&& self.pts_fit(self.buffer@)
+        &&& self.writer.wf() && self.writer.cursor() % 4 == 0
+        &&& 1 <= self.max_points_per_packet <= 0x10_0000
+        // C02: the section length is the number of logical bytes written since the section start
+        &&& self.section_header.section_length as int == self.writer.cursor() - unphys(self.section_offset as int)
+        &&& self.section_header.section_length >= 32 && self.section_header.section_length as int <= self.writer.cursor()
+    }
+    /// what does not change when buffered points are packed and written
+    spec fn same_meta(&self, o: &Self) -> bool {
+        &&& self.prototype == o.prototype && self.point_count == o.point_count && self.max_points_per_packet == o.max_points_per_packet
+        &&& self.section_offset == o.section_offset
+        &&& self.section_header.section_id == o.section_header.section_id && self.section_header.data_offset == o.section_header.data_offset
+        &&& self.section_header.index_offset == o.section_header.index_offset
+        &&& self.cartesian_bounds == o.cartesian_bounds && self.spherical_bounds == o.spherical_bounds && self.index_bounds == o.index_bounds
+        &&& self.color_limits == o.color_limits && self.intensity_limits == o.intensity_limits
+    }
+    /// number of points one call of write_buffer_to_disk packs
+    spec fn packed_now(&self) -> int {
+        if self.max_points_per_packet <= self.buffer@.len() { self.max_points_per_packet as int } else { self.buffer@.len() as int }
+    }
+    /// all bits of stream i after the first k buffered points were packed
+    spec fn all_bits(&self, i: int, k: int) -> Seq<bool> {
+        self.byte_streams@[i].bits() + enc_pts(self.prototype@[i].data_type, i, self.buffer@, k)
+    }
+
+//@fn src/pc_writer.rs PointCloudWriter write_buffer_to_disk serves=C01,C02,C10,C16 ret=r
+//@rw for _ in 0\.\.packet_points ==> for _k in it: 0..packet_points
+//@rw for \(i, prototype\) in self\.prototype\.iter\(\)\.enumerate\(\) \{ ==> for i in it2: 0..self.prototype.len() { let prototype = &self.prototype[i];
+//@rw size\.to_le_bytes\(\) ==> shim_u16_to_le_bytes(size)
+//@rw \.write\(&mut self\.writer\)\? ==> .write(self.writer)?
+//@rw for bs in &self\.byte_streams \{ ==> for bs in it3: &self.byte_streams {
+//@rw for size in bs_sizes \{ ==> for si in it4: 0..bs_sizes.len() { let size = bs_sizes[si];
+//@rw for bs in &mut self\.byte_streams \{ ==> for bi in it5: 0..self.byte_streams.len() {
+//@rw bs\.get_all_bytes\(\) ==> self.byte_streams[bi].get_all_bytes()
+//@rw bs\.get_full_bytes\(\) ==> self.byte_streams[bi].get_full_bytes()
+//@sig
+        requires old(self).wf_w(),
+        ensures
+            r is Ok ==> final(self).same_meta(old(self)),
+            r is Ok ==> final(self).wf_w(),
+            // the first k = min(capacity, buffered) points are packed, in order; the rest stays buffered
+            /*[C01]*/ r is Ok ==> final(self).buffer@ =~= old(self).buffer@.subrange(old(self).packed_now(), old(self).buffer@.len() as int),
+            // their encodings go to the byte streams and (whole bytes) into exactly one well-formed data packet
+            /*[C01,C02]*/ r is Ok ==> exists|chunks: Seq<Seq<u8>>| #[trigger] final(self).emitted(old(self), old(self).packed_now(), last_flush, chunks),
+            /*[C16]*/ r is Ok ==> final(self).writer.no_new_fault(&*old(self).writer),
+//@loop 0 head hdr=for _k in it: 0\.\.packet_points
+            invariant
+                self.same_meta(old(self)), self.writer == old(self).writer, self.section_header == old(self).section_header,
+                old(self).wf_w(), proto_len == self.n(), packet_points <= old(self).buffer@.len(), packet_points <= old(self).max_points_per_packet,
+                self.buffer@ =~= old(self).buffer@.subrange(it.index@ as int, old(self).buffer@.len() as int),
+                self.byte_streams@.len() == self.n(),
+                forall|i: int| 0 <= i < self.n() ==> (#[trigger] self.byte_streams@[i]).wf()
+                    && self.byte_streams@[i].bits() =~= old(self).all_bits(i, it.index@ as int)
+                    && self.byte_streams@[i].nbits() <= 8 + 64 * it.index@,
+//@loop 0 body_start
+            let ghost idx = it.index@ as int;
+//@loop 1 before
+            let ghost pre1 = *self;
+            proof { assert(old(self).buffer@[idx] == p); }
+//@loop 1 head
+                invariant
+                    it2.snapshot@.end == self.n(), proto_len == self.n(),
+                    self.same_meta(old(self)), self.writer == old(self).writer, self.section_header == old(self).section_header,
+                    old(self).wf_w(), self.buffer@ == pre1.buffer@, self.byte_streams@.len() == self.n(),
+                    0 <= idx < old(self).buffer@.len(), idx < 0x10_0000, p == old(self).buffer@[idx],
+                    forall|i2: int| 0 <= i2 < i ==> (#[trigger] self.byte_streams@[i2]).wf()
+                        && self.byte_streams@[i2].bits() =~= old(self).all_bits(i2, idx + 1)
+                        && self.byte_streams@[i2].nbits() <= 8 + 64 * (idx + 1),
+                    forall|i2: int| i <= i2 < self.n() ==> (#[trigger] self.byte_streams@[i2]).wf()
+                        && self.byte_streams@[i2].bits() =~= old(self).all_bits(i2, idx)
+                        && self.byte_streams@[i2].nbits() <= 8 + 64 * idx,
+//@loop 1 body_start
+                    let ghost prei = *self;
+                    proof {
+                        assert(old(self).pts_fit(old(self).buffer@));
+                        assert(old(self).buffer@[idx]@.len() == self.n());
+                        match self.prototype@[i as int].data_type { RecordDataType::ScaledInteger { min, max, .. } => lemma_width(min, max), RecordDataType::Integer { min, max } => lemma_width(min, max), _ => {} }
+                    }
+//@loop 1 body_end
+                    proof {
+                        let dt = self.prototype@[i as int].data_type;
+                        assert(old(self).all_bits(i as int, idx + 1) =~= old(self).all_bits(i as int, idx) + dt.enc(p@[i as int]));
+                        assert forall|i2: int| 0 <= i2 < self.n() && i2 != i implies self.byte_streams@[i2] == prei.byte_streams@[i2] by {}
+                    }
+//@loop 2 before
+        let ghost mid = *self;
+        let ghost k = packet_points as int;
+        let ghost w0 = *self.writer;
+        let ghost mut chunks: Seq<Seq<u8>> = Seq::new(self.n() as nat, |i: int| Seq::<u8>::empty());
+        let ghost mut body: Seq<u8> = Seq::empty();
+        let ghost mut wmid = *self.writer;
+        proof { lemma_appended_refl(*self.writer); lemma_cursor_bound(*self.writer); }
+//@loop 2 head
+            invariant
+                *self == mid, self.n() == mid.n(), mid.n() < 0x8000, mid.byte_streams@.len() == mid.n(), 0 <= k <= 0x10_0000,
+                forall|i: int| 0 <= i < mid.n() ==> (#[trigger] mid.byte_streams@[i]).wf() && mid.byte_streams@[i].nbits() <= 8 + 64 * k,
+                sum_bs_sizes == sum_chunk(mid.byte_streams@, last_flush, it3.index@ as int), sum_bs_sizes <= it3.index@ * 0x1000_0000,
+                bs_sizes@.len() == it3.index@,
+                forall|t: int| 0 <= t < it3.index@ ==> #[trigger] bs_sizes@[t] == (mid.byte_streams@[t].chunk_len(last_flush) as u16),
+//@stmt 0 before if packet_length % 4 != 0
+            let ghost plen0 = packet_length as int;
+//@stmt 0 before self\.section_header\.section_length \+= packet_length as u64
+            proof {
+                lemma_up4(plen0);
+                lemma_cursor_bound(*self.writer);
+                assert(packet_length == up4(6 + 2 * mid.n() + sum_chunk(mid.byte_streams@, last_flush, mid.n())));
+            }
+//@call write 1 after
+            let ghost w1 = *self.writer;
+            let ghost szs = bs_sizes@;
+            let ghost sh1 = self.section_header;
+            proof { lemma_appended_refl(*self.writer); lemma_cursor_bound(*self.writer); }
+//@loop 3 head
+                invariant
+                    self.byte_streams == mid.byte_streams, self.buffer == mid.buffer, self.same_meta(&mid), self.section_header == sh1, self.n() == mid.n(),
+                    szs.len() == mid.n(), bs_sizes@ == szs, it4.snapshot@.end == szs.len(), self.writer.wf(), self.writer.no_new_fault(&w0), w1.cursor() >= 0,
+                    appended(w1, *self.writer, sizes16(szs, si as int)),
+//@loop 3 body_start
+                let ghost wb = *self.writer;
+//@loop 3 body_end
+                proof {
+                    lemma_appended_trans(w1, wb, *self.writer, sizes16(szs, si as int), le_bytes16(size));
+                }
+//@loop 4 before
+            let ghost w2 = *self.writer;
+            let ghost mut built: Seq<Seq<u8>> = Seq::empty();
+            proof { lemma_appended_refl(*self.writer); }
+//@loop 4 head
+                invariant
+                    it5.snapshot@.end == mid.n(), self.byte_streams@.len() == mid.n(), mid.byte_streams@.len() == mid.n(), self.buffer == mid.buffer, self.same_meta(&mid),
+                    self.section_header == sh1, self.n() == mid.n(), self.writer.wf(), self.writer.no_new_fault(&w0), w2.cursor() >= 0,
+                    built.len() == bi,
+                    appended(w2, *self.writer, concat_chunks(built, bi as int)),
+                    forall|i: int| 0 <= i < mid.n() ==> (#[trigger] mid.byte_streams@[i]).wf(),
+                    forall|i: int| bi <= i < mid.n() ==> self.byte_streams@[i] == mid.byte_streams@[i],
+                    forall|i: int| 0 <= i < bi ==> (#[trigger] built[i]).len() == mid.byte_streams@[i].chunk_len(last_flush) && self.byte_streams@[i].wf()
+                        && (if last_flush { built[i].len() == (mid.byte_streams@[i].nbits() + 7) / 8 && bits_of(built[i]).subrange(0, mid.byte_streams@[i].nbits()) =~= mid.byte_streams@[i].bits()
+                                && (forall|b: int| mid.byte_streams@[i].nbits() <= b < 8 * built[i].len() ==> !bit_at(built[i], b)) && self.byte_streams@[i].bits().len() == 0 && self.byte_streams@[i].nbits() == 0 }
+                            else { bits_of(built[i]) + self.byte_streams@[i].bits() =~= mid.byte_streams@[i].bits() && self.byte_streams@[i].nbits() < 8 }),
+//@loop 4 body_start
+                let ghost wb = *self.writer;
+                let ghost pre_bs = self.byte_streams@;
+                proof { assert(bi < mid.n()); assert(self.byte_streams@[bi as int] == mid.byte_streams@[bi as int]); assert(mid.byte_streams@[bi as int].wf()); assert(self.byte_streams@[bi as int].wf()); }
+//@loop 4 body_end
+                proof {
+                    let old_built = built;
+                    lemma_appended_trans(w2, wb, *self.writer, concat_chunks(built, bi as int), data@);
+                    built = built.push(data@);
+                    lemma_concat_ext(built, old_built, bi as int);
+                    assert(concat_chunks(built, bi as int + 1) == concat_chunks(old_built, bi as int) + data@);
+                    assert forall|i: int| 0 <= i < bi implies built[i] == old_built[i] by {}
+                }
+//@loop 4 after
+            proof {
+                chunks = built;
+                let n = mid.n();
+                let hdr = spec_data_packet_header(false, packet_length as u64, proto_len as u16);
+                lemma_total_nonneg(chunks, n);
+                lemma_sum_chunk_total(mid.byte_streams@, last_flush, chunks, n);
+                assert forall|t: int| 0 <= t < n implies szs[t] as int == (#[trigger] chunks[t]).len() by { lemma_total_ge_each(chunks, n, t); }
+                lemma_sizes16_is_sizes_le(szs, chunks, n);
+                lemma_appended_trans(w0, w1, w2, hdr, sizes_le(chunks, n));
+                lemma_appended_trans(w0, w2, *self.writer, hdr + sizes_le(chunks, n), concat_chunks(chunks, n));
+                body = hdr + sizes_le(chunks, n) + concat_chunks(chunks, n);
+                wmid = *self.writer;
+            }
+//@tail
+        proof {
+            let n = mid.n();
+            let tot = total_len(chunks, n);
+            lemma_total_nonneg(chunks, n);
+            let pad = Seq::new((self.writer.cursor() - wmid.cursor()) as nat, |i: int| 0u8);
+            lemma_appended_trans(w0, wmid, *self.writer, body, pad);
+            if sum_bs_sizes > 0 {
+                lemma_up4(6 + 2 * n + tot);
+                assert(pad =~= zeros(up4(6 + 2 * n + tot) - 6 - 2 * n - tot));
+                assert(body + pad =~= spec_data_packet(chunks));
+            } else {
+                lemma_sum_chunk_zero(mid.byte_streams@, last_flush, n);
+                lemma_sum_chunk_total(mid.byte_streams@, last_flush, chunks, n);
+                assert(pad =~= Seq::<u8>::empty());
+                assert(body + pad =~= Seq::<u8>::empty());
+            }
+            assert(chunks.len() == n);
+            assert(old(self).n() == n);
+            assert forall|i: int| 0 <= i < n implies (#[trigger] self.byte_streams@[i]).wf() && self.byte_streams@[i].nbits() < 8 by {
+                if sum_bs_sizes == 0 { assert(self.byte_streams@[i] == mid.byte_streams@[i]); assert(mid.byte_streams@[i].chunk_len(last_flush) == 0); }
+                else { let c = chunks[i]; assert(c.len() == mid.byte_streams@[i].chunk_len(last_flush)); }
+            }
+            assert forall|i: int| 0 <= i < n implies ({
+                let all = old(self).all_bits(i, k);
+                if last_flush { (#[trigger] chunks[i]).len() == (all.len() + 7) / 8 && bits_of(chunks[i]).subrange(0, all.len() as int) =~= all
+                            && (forall|b: int| all.len() <= b < 8 * chunks[i].len() ==> !bit_at(chunks[i], b)) && self.byte_streams@[i].bits().len() == 0 }
+                else { bits_of(#[trigger] chunks[i]) + self.byte_streams@[i].bits() =~= all && self.byte_streams@[i].nbits() < 8 } }) by { }
+            assert(tot > 0 ==> appended(*old(self).writer, *self.writer, spec_data_packet(chunks)));
+            assert(tot > 0 ==> self.section_header.section_length as int == old(self).section_header.section_length + spec_data_packet(chunks).len());
+            assert(tot > 0 ==> spec_data_packet(chunks).len() == up4(6 + 2 * n + tot) && spec_data_packet(chunks).len() <= 65535);
+            assert(tot == 0 ==> appended(*old(self).writer, *self.writer, Seq::<u8>::empty()) && self.section_header.section_length == old(self).section_header.section_length);
+            assert(self.emitted(old(self), k, last_flush, chunks));
+            assert(self.same_meta(old(self)));
+            assert(self.pts_fit(self.buffer@)) by {
+                assert forall|j: int| 0 <= j < self.buffer@.len() implies (#[trigger] self.buffer@[j])@.len() == self.n()
+                    && forall|i: int| 0 <= i < self.n() ==> (#[trigger] self.prototype@[i]).data_type.fits(self.buffer@[j]@[i]) by {
+                    assert(self.buffer@[j] == old(self).buffer@[j + k]);
+                }
+            }
+            assert(self.wf_w());
+            assert(self.writer.no_new_fault(&w0));
+            assert(self.buffer@ =~= old(self).buffer@.subrange(k, old(self).buffer@.len() as int));
+            assert(k == old(self).packed_now());
+        }
+//@endfn
 
 //@fn src/pc_writer.rs PointCloudWriter add_point serves=C10,C14,C01 ret=r
 //@rw for \(i, p\) in self\.prototype\.iter\(\)\.enumerate\(\) \{ ==> for i in 0..self.prototype.len() { let p = &self.prototype[i]; ;n=2
